@@ -55,7 +55,7 @@ func TestC05NonceStore(t *testing.T) {
 			burstSeq := 0
 			n := rapid.IntRange(4, 30).Draw(rt, "steps")
 			for i := 0; i < n; i++ {
-				switch op := rapid.SampledFrom([]string{"submit", "submit", "submit", "submit", "advance", "advance", "reopen", "race", "burst"}).Draw(rt, "op"); op {
+				switch op := rapid.SampledFrom([]string{"submit", "submit", "submit", "submit", "advance", "advance", "reopen", "race", "burst", "crowd"}).Draw(rt, "op"); op {
 				case "burst":
 					// a busy pool: many accepted requests of OTHER identities must not make the store forget anybody's nonce
 					k := rapid.SampledFrom([]int{10, 70, 130, 300, 700}).Draw(rt, "burst")
@@ -146,6 +146,54 @@ func TestC05NonceStore(t *testing.T) {
 					reopened++
 					hist = append(hist, "close + reopen")
 					sigParts = append(sigParts, "reopen")
+				case "crowd":
+					// many DIFFERENT identities submit at the same moment (free-running goroutines): each one's record
+					// holds its own nonce afterwards - a replay of it, and anything lower, is refused - whoever else was
+					// writing at the time ("nonces of one identity never affect another")
+					k := rapid.SampledFrom([]int{2, 8, 24, 48}).Draw(rt, "crowd")
+					burstSeq++
+					base := time.Now().UnixNano()
+					type sub struct {
+						id    string
+						nonce int64
+						err   error
+					}
+					subs := make([]*sub, k)
+					for j := range subs {
+						// well separated values, neither ascending nor descending in j
+						subs[j] = &sub{id: fmt.Sprintf("crowd%d-%d", burstSeq, j), nonce: base + int64((j*7919)%k)*int64(time.Second) + int64(j)}
+					}
+					var wg sync.WaitGroup
+					start := make(chan struct{})
+					for _, x := range subs {
+						wg.Add(1)
+						go func() {
+							defer wg.Done()
+							<-start
+							x.err = st.CheckAndSaveNonce(x.id, x.nonce)
+						}()
+					}
+					close(start)
+					wg.Wait()
+					for _, x := range subs {
+						if x.err != nil {
+							fail("crowd of %d identities: fresh first nonce of %s refused: %v", k, x.id, x.err)
+						}
+						model.CommitNonce(x.id, x.nonce)
+						accepted++
+					}
+					for _, x := range subs {
+						if err := st.CheckAndSaveNonce(x.id, x.nonce); err != store.ErrInvalidNonce {
+							fail("crowd of %d identities submitting together: the replay of %s's accepted nonce got %v, want ErrInvalidNonce", k, x.id, err)
+						}
+						if err := st.CheckAndSaveNonce(x.id, x.nonce-int64(time.Millisecond)); err != store.ErrInvalidNonce {
+							fail("crowd of %d identities submitting together: a nonce below %s's accepted one got %v, want ErrInvalidNonce", k, x.id, err)
+						}
+						rejectedAfterAccept++
+					}
+					hist = append(hist, fmt.Sprintf("crowd: %d identities submit together, then each replays", k))
+					raced++
+					sigParts = append(sigParts, fmt.Sprintf("crowd%d", k))
 				case "race":
 					id := rapid.SampledFrom([]string{"a", "b", "c"}).Draw(rt, "id")
 					delta := int64(rapid.SampledFrom([]time.Duration{-time.Second, 0, 1, time.Second, time.Minute}).Draw(rt, "delta"))
@@ -271,6 +319,9 @@ func TestC05Replay(t *testing.T) {
 			if storeFault {
 				mode = "storefault"
 			}
+			if endpoint == "withdraw" && !storeFault && rapid.IntRange(0, 2).Draw(rt, "settleFault") == 0 {
+				mode = "settlefault"
+			}
 			who := s.agents[client].id
 			var submit func() error
 			var submitRespelled func(how string) error
@@ -367,6 +418,52 @@ func TestC05Replay(t *testing.T) {
 				}
 				rec.Case(fmt.Sprintf("replay|%s|%s|storefault|%v", driver, endpoint, e1 == nil), true, []string{"replay:" + endpoint, "replay:mode:storefault", "replay:driver:" + driver}, func() interface{} {
 					return map[string]interface{}{"level": "pool", "driver": driver, "endpoint": endpoint, "mode": "storefault", "during_fault": fmt.Sprint(e1), "after_fault": fmt.Sprint(e2), "again": fmt.Sprint(e3)}
+				})
+				return
+			}
+			if mode == "settlefault" {
+				// The settlement fails while the first copy is carried out (nothing is paid). The very same signed
+				// request then arrives up to four more times, the wallet earning new credit in between: whatever the
+				// pool makes of a request whose settlement failed, ONE signed request pays at most once.
+				s.mu.Lock()
+				s.settleHook = func(account store.Account, amount *big.Int) error { return errors.New("injected settlement failure") }
+				s.mu.Unlock()
+				e1 := submit()
+				s.mu.Lock()
+				s.settleHook = nil
+				s.mu.Unlock()
+				paid := func() int {
+					s.mu.Lock()
+					defer s.mu.Unlock()
+					n := 0
+					for _, c := range s.settleLog {
+						if c.OK {
+							n++
+						}
+					}
+					return n
+				}
+				if paid() != 0 {
+					rt.Fatalf("a withdrawal whose settlement failed is logged as paid (err=%v)", e1)
+				}
+				var errsAfter []string
+				copies := rapid.IntRange(2, 4).Draw(rt, "copiesAfterSettleFault")
+				for k := 0; k < copies; k++ {
+					if rapid.Bool().Draw(rt, "accrueBetweenCopies") {
+						s.raw.AddAccountBalance(store.Account(w.addr), big.NewInt(int64(7000+k)))
+						time.Sleep(time.Second)
+					}
+					errsAfter = append(errsAfter, fmt.Sprint(submit()))
+					if n := paid(); n > 1 {
+						rt.Fatalf("one signed pool_withdraw (its first settlement failed: %v) was paid %d times; errors of the later copies: %v", e1, n, errsAfter)
+					}
+				}
+				// and the owner's NEXT withdrawal (a new nonce) is not affected by what happened to the old one
+				if err := s.withdraw(w); classifyErr(err).Kind == "verify" {
+					rt.Fatalf("the owner's next withdrawal after a failed settlement is refused by verification: %v", err)
+				}
+				rec.Case(fmt.Sprintf("replay|%s|withdraw|settlefault|%d|%v", driver, copies, e1 == nil), true, []string{"replay:withdraw", "replay:mode:settlefault", "replay:driver:" + driver}, func() interface{} {
+					return map[string]interface{}{"level": "pool", "driver": driver, "endpoint": "withdraw", "mode": "settlefault", "first": fmt.Sprint(e1), "later_copies": errsAfter}
 				})
 				return
 			}
